@@ -3,6 +3,7 @@
 package main
 
 import (
+	"encoding/json"
 	"flag"
 	"fmt"
 	"os"
@@ -28,6 +29,7 @@ func main() {
 	replay := flag.String("replay", "", "re-evaluate the obligation recorded in this replay file")
 	goarch := flag.String("goarch", "", "GOARCH for the load (default: host)")
 	list := flag.Bool("list", false, "list registered properties")
+	genNames := flag.String("gen-names", "", "write the frozen parameter/local name table of the current tree to this file")
 	flag.Parse()
 
 	if *list {
@@ -41,6 +43,31 @@ func main() {
 	}
 	if *tier != "thorough" {
 		*tier = "quick"
+	}
+
+	if *genNames != "" {
+		prov.Disabled = true
+		p, err := load.Load(*repo, *goarch)
+		if err != nil {
+			fmt.Fprintln(os.Stderr, "INFRA:", err)
+			os.Exit(2)
+		}
+		table := map[string]prov.FnNames{}
+		for _, fn := range p.Funcs {
+			if n, ok := prov.CurrentNames(fn); ok {
+				if _, dup := table[prov.FuncString(fn)]; dup {
+					fmt.Fprintln(os.Stderr, "duplicate function name:", prov.FuncString(fn))
+				}
+				table[prov.FuncString(fn)] = n
+			}
+		}
+		b, _ := json.MarshalIndent(table, "", " ")
+		if err := os.WriteFile(*genNames, append(b, '\n'), 0o644); err != nil {
+			fmt.Fprintln(os.Stderr, "INFRA:", err)
+			os.Exit(2)
+		}
+		fmt.Printf("%d functions\n", len(table))
+		return
 	}
 
 	if *dump != "" {
